@@ -290,8 +290,18 @@ theorem runPS_popped (fl cfg) : ∀ (fuel : Nat) (s : St) (p : P), RecvP p →
       · rename_i s' p' hm
         split at hm
         · cases hm
-        · have h1 := recvStep_popped hm
-          exact h1.1.trans (ih s' p' h1.2)
+        · split at hm
+          · rename_i hr
+            cases hm
+            have h1 := recvStep_popped hr
+            exact h1.1.trans (ih s' p' h1.2)
+          · split at hm
+            · cases hm
+              obtain ⟨a, b, c, d, e⟩ := mbFlush_fields fl s
+              have h1 : Popped s (gotOf (.brecv t f h n got)) (mbFlush fl s) (.brecv t f h n got) :=
+                ⟨⟨[], by simp [a], by simp [b], by simp [c], by simp⟩, d, e⟩
+              exact h1.trans (ih _ _ trivial)
+            · cases hm
     | _ => exact absurd hp (by simp [RecvP])
 
 theorem startRecv_popped {fl : Flavour} (hrv : fl.fam ≠ .rv) (hos : fl.fam ≠ .os) (cfg s t f h n) :
@@ -313,7 +323,8 @@ theorem startRecv_popped {fl : Flavour} (hrv : fl.fam ≠ .rv) (hos : fl.fam ≠
         · split
           · rename_i r hr
             exact recvStep_popped (by rw [hr] : recvStep fl cfg s t f _ n [] = some (r.1, r.2))
-          · exact ⟨⟨⟨[], by simp, by simp, by simp, by simp [gotOf]⟩, rfl, rfl⟩, trivial⟩
+          · obtain ⟨a, b, c, d, e⟩ := mbFlush_fields fl s
+            exact ⟨⟨⟨[], by simp [a], by simp [b], by simp [c], by simp [gotOf]⟩, d, e⟩, trivial⟩
 
 /-- **A receive form on a buffered channel removes exactly what it returns from the front of the
 buffer, in order, and changes nothing else of the abstract state.** -/
